@@ -22,7 +22,7 @@ using namespace glmx;
 typedef long double L;
 static const L PI_L = 3.14159265358979323846264338327950288L;
 
-enum { KF_EULER_GIMBAL = 0, KF_AXIS_CANCEL = 1, KF_TWOVEC_NEAR_OPPOSITE = 2 };
+enum { KF_EULER_GIMBAL = 0, KF_AXIS_CANCEL = 1, KF_TWOVEC_NEAR_OPPOSITE = 2, KF_EXP_ZERO = 3 };
 
 template <typename F> struct FT;
 template <> struct FT<float> { static float get(uint64_t b) { return f32(b); } static uint64_t bits(float f) { return b32(f); } static L u() { return 0x1p-24L; } static const char* name() { return "float"; } enum { IDX = 0 }; };
@@ -31,17 +31,23 @@ template <> struct FT<double> { static double get(uint64_t b) { return f64(b); }
 // ------------------------------------------------------------------------------- measurement (development only)
 #ifdef C04_MEASURE
 #include <atomic>
-struct MeasSlot { const char* name; std::atomic<uint64_t> eu, et; };
+struct MeasSlot { const char* name; std::atomic<uint64_t> eu, et, fail[48]; };
 static MeasSlot g_meas[2][80];
 static void measupd(std::atomic<uint64_t>& a, double v) { if (!(v >= 0)) return; uint64_t b = b64(v), cur = a.load(); while (b > cur && !a.compare_exchange_weak(cur, b)) {} }
-static void meas(int t, int slot, const char* name, L e, L tol, L u) { g_meas[t][slot].name = name; measupd(g_meas[t][slot].eu, (double)(e / u)); measupd(g_meas[t][slot].et, (double)(tol > 0 ? e / tol : (e > 0 ? 1e300 : 0))); }
-struct MeasDump { ~MeasDump() { for (int t = 0; t < 2; ++t) for (int s = 0; s < 80; ++s) if (g_meas[t][s].name) std::fprintf(stderr, "MEAS %-6s %-46s max err = %10.3f u   max err/tol = %.4f\n", t ? "double" : "float", g_meas[t][s].name, f64(g_meas[t][s].eu.load()), f64(g_meas[t][s].et.load())); } } g_measdump;
-#define MEAS(SLOT, NAME, E, T) meas(FT<F>::IDX, SLOT, NAME, E, T, u)
+// passing case: max error in u, and max share of the rounding allowance used once the |q|^2-1 allowance is taken off
+static void meas(int t, int slot, const char* name, L e, L cu, L ndp, L u) { g_meas[t][slot].name = name; measupd(g_meas[t][slot].eu, (double)(e / u)); L r = e - ndp; if (r < 0) r = 0; measupd(g_meas[t][slot].et, (double)(r / cu)); }
+static void measfail(int t, int slot, const char* name, L e, L tol) { g_meas[t][slot].name = name; int b = 47; if (e == e && tol > 0) { L r = log2l(e / tol); b = r < 0 ? 0 : r > 46 ? 46 : (int)r; } g_meas[t][slot].fail[b]++; }
+struct MeasDump { ~MeasDump() { for (int t = 0; t < 2; ++t) for (int s = 0; s < 80; ++s) if (g_meas[t][s].name) { std::fprintf(stderr, "MEAS %-6s [%2d] %-46s max err = %10.3f u   max rounding share = %.4f", t ? "double" : "float", s, g_meas[t][s].name, f64(g_meas[t][s].eu.load()), f64(g_meas[t][s].et.load()));
+    for (int b = 0; b < 48; ++b) if (g_meas[t][s].fail[b].load()) std::fprintf(stderr, "  FAIL[2^%d..]=%llu", b, (unsigned long long)g_meas[t][s].fail[b].load()); std::fprintf(stderr, "\n"); } } } g_measdump;
+#define MEAS(SLOT, NAME, E, CU, NDP) meas(FT<F>::IDX, SLOT, NAME, E, CU, NDP, u)
+#define MEASFAIL(SLOT, NAME, E, T) measfail(FT<F>::IDX, SLOT, NAME, E, T)
 #else
-#define MEAS(SLOT, NAME, E, T) ((void)0)
+#define MEAS(SLOT, NAME, E, CU, NDP) ((void)0)
+#define MEASFAIL(SLOT, NAME, E, T) ((void)0)
 #endif
-// CHK: error E must be <= tolerance T (NaN fails); got/want in the replay file are the error and the tolerance as doubles
-#define CHK(SLOT, E, T, VC, MSG) do { L e_ = (E), t_ = (T); if (!(e_ <= t_)) { o.res(b64((double)e_)); o.exp(b64((double)t_)); o.bad(VC, MSG); return; } MEAS(SLOT, MSG, e_, t_); } while (0)
+// CHK: error E must be <= CU + NDP (NaN fails).  CU is the rounding allowance (c*u*magnitude), NDP the allowance for the
+// deviation of |q|^2 from 1 in the *input*.  got/want in the replay file are the error and the tolerance as doubles.
+#define CHK(SLOT, E, CU, NDP, VC, MSG) do { L e_ = (E), c_ = (CU), n_ = (NDP); if (!(e_ <= c_ + n_)) { MEASFAIL(SLOT, MSG, e_, c_ + n_); o.res(b64((double)e_)); o.exp(b64((double)(c_ + n_))); o.bad(VC, MSG); return; } MEAS(SLOT, MSG, e_, c_, n_); } while (0)
 
 // ----------------------------------------------------------------------------------- long double reference model
 struct LQ { L w, x, y, z; };
@@ -93,15 +99,15 @@ template <typename F> static void op_rotvec(const Case& c, Outcome& o) {
   LQ ql = toL(q); L nd = fabsl(qn2(ql) - 1); LQ qh = qhat(ql); LV vl = toL(v); L vn = vlen(vl); LV r = rotv(qh, vl), rt = rotv(qconj(qh), vl);
   o.cls(qclass(qh));
   // v + 2(w(u x v) + u x (u x v)) and the 3x3 product have intermediate terms bounded by ~5|v|; deviation of |q|^2 from 1 enters as 2 nd |v|
-  const L tol = (32 * u + 2 * nd) * vn;
-  CHK(0, dvv(toL(V3(q * v)), r), tol, 1, "q*v is not R(q)v");
-  CHK(1, dvv(toL(V3(glm::mat3_cast(q) * v)), r), tol, 2, "mat3_cast(q)*v is not R(q)v");
-  { V4 g = glm::mat4_cast(q) * V4(v, F(1)); CHK(2, dvv(toL(V3(g)), r), tol, 3, "mat4_cast(q)*(v,1) is not (R(q)v,1)"); if (!(g.w == 1)) { o.bad(4, "mat4_cast(q)*(v,1): w is not 1"); return; } }
-  { V4 g = q * V4(v, F(2)); CHK(3, dvv(toL(V3(g)), r), tol, 5, "q*vec4(v,w) is not (R(q)v,w)"); if (!(g.w == 2)) { o.bad(6, "q*vec4(v,w) changed w"); return; } }
-  CHK(4, dvv(toL(V3(glm::rotate(q, v))), r), tol, 7, "gtx rotate(q,v) is not R(q)v");
-  { V4 g = glm::rotate(q, V4(v, F(3))); CHK(5, dvv(toL(V3(g)), r), tol, 8, "gtx rotate(q,vec4) is not (R(q)v,w)"); if (!(g.w == 3)) { o.bad(9, "gtx rotate(q,vec4) changed w"); return; } }
+  const L cu = 40 * u * vn, np = 2 * nd * vn;
+  CHK(0, dvv(toL(V3(q * v)), r), cu, np, 1, "q*v is not R(q)v");
+  CHK(1, dvv(toL(V3(glm::mat3_cast(q) * v)), r), cu, np, 2, "mat3_cast(q)*v is not R(q)v");
+  { V4 g = glm::mat4_cast(q) * V4(v, F(1)); CHK(2, dvv(toL(V3(g)), r), cu, np, 3, "mat4_cast(q)*(v,1) is not (R(q)v,1)"); if (!(g.w == 1)) { o.bad(4, "mat4_cast(q)*(v,1): w is not 1"); return; } }
+  { V4 g = q * V4(v, F(2)); CHK(3, dvv(toL(V3(g)), r), cu, np, 5, "q*vec4(v,w) is not (R(q)v,w)"); if (!(g.w == 2)) { o.bad(6, "q*vec4(v,w) changed w"); return; } }
+  CHK(4, dvv(toL(V3(glm::rotate(q, v))), r), cu, np, 7, "gtx rotate(q,v) is not R(q)v");
+  { V4 g = glm::rotate(q, V4(v, F(3))); CHK(5, dvv(toL(V3(g)), r), cu, np, 8, "gtx rotate(q,vec4) is not (R(q)v,w)"); if (!(g.w == 3)) { o.bad(9, "gtx rotate(q,vec4) changed w"); return; } }
   // v*q = inverse(q)*v : the inverse rotation (division by dot(q,q) adds another nd)
-  CHK(6, dvv(toL(V3(v * q)), rt), (32 * u + 4 * nd) * vn, 10, "v*q is not R(q)^-1 v");
+  CHK(6, dvv(toL(V3(v * q)), rt), 64 * u * vn, 4 * nd * vn, 10, "v*q is not R(q)^-1 v");
 }
 
 // ============================================================================ op 2: quat_cast(mat3_cast(q)) = +-q
@@ -111,20 +117,20 @@ template <typename F> static void op_castround(const Case& c, Outcome& o) {
   Q q = getq<F>(c.w); LQ ql = toL(q); L nd = fabsl(qn2(ql) - 1); LQ qh = qhat(ql); LM R = rotm(qh);
   { const L a[4] = {fabsl(ql.w), fabsl(ql.x), fabsl(ql.y), fabsl(ql.z)}; int bi = 0, ties = 0; for (int i = 1; i < 4; ++i) if (a[i] > a[bi]) bi = i; for (int i = 0; i < 4; ++i) if (i != bi && a[i] == a[bi]) ++ties; o.cls(ties ? 4 : bi); }
   glm::mat<3, 3, F> m3 = glm::mat3_cast(q); glm::mat<4, 4, F> m4 = glm::mat4_cast(q);
-  // entries are 1-2(a+b) or 2(a+-b) with |a|,|b| <= 1/2..1 : a few roundings each; 1 - |q|^2 enters with a factor <= 2
-  CHK(10, dmm(toL(m3), R), 8 * u + 2 * nd, 1, "mat3_cast(q) is not the rotation matrix of q");
-  CHK(11, dmm(toL3(m4), R), 8 * u + 2 * nd, 2, "mat4_cast(q) is not the rotation matrix of q");
+  // entries are 1-2(a+b) or 2(a+-b) with |a|,|b| <= 1: three to four roundings of magnitude <= u each; 1 - |q|^2 enters with a factor <= 2
+  CHK(10, dmm(toL(m3), R), 16 * u, 2 * nd, 1, "mat3_cast(q) is not the rotation matrix of q");
+  CHK(11, dmm(toL3(m4), R), 16 * u, 2 * nd, 2, "mat4_cast(q) is not the rotation matrix of q");
   if (!pad_ok(m4)) { o.bad(3, "mat4_cast(q): last row/column is not that of the identity"); return; }
-  CHK(12, dmm(toL(glm::toMat3(q)), R), 8 * u + 2 * nd, 4, "gtx toMat3(q) is not the rotation matrix of q");
-  CHK(13, dmm(toL3(glm::toMat4(q)), R), 8 * u + 2 * nd, 5, "gtx toMat4(q) is not the rotation matrix of q");
-  CHK(14, dmm(toL(glm::mat<3, 3, F>(q)), R), 8 * u + 2 * nd, 6, "explicit mat3(q) is not the rotation matrix of q");
-  const L tq = 16 * u + 2 * nd;
-  { Q g = glm::quat_cast(m3); o.res(FT<F>::bits(g.w), FT<F>::bits(g.x)); CHK(15, dqs(toL(g), qh), tq, 7, "quat_cast(mat3_cast(q)) is neither q nor -q"); }
-  CHK(16, dqs(toL(glm::quat_cast(m4)), qh), tq, 8, "quat_cast(mat4_cast(q)) is neither q nor -q");
-  CHK(17, dqs(toL(Q(m3)), qh), tq, 9, "qua(mat3) is neither q nor -q");
-  CHK(18, dqs(toL(Q(m4)), qh), tq, 10, "qua(mat4) is neither q nor -q");
-  CHK(19, dqs(toL(glm::toQuat(m3)), qh), tq, 11, "gtx toQuat(mat3) is neither q nor -q");
-  CHK(20, dqs(toL(glm::toQuat(m4)), qh), tq, 12, "gtx toQuat(mat4) is neither q nor -q");
+  CHK(12, dmm(toL(glm::toMat3(q)), R), 16 * u, 2 * nd, 4, "gtx toMat3(q) is not the rotation matrix of q");
+  CHK(13, dmm(toL3(glm::toMat4(q)), R), 16 * u, 2 * nd, 5, "gtx toMat4(q) is not the rotation matrix of q");
+  CHK(14, dmm(toL(glm::mat<3, 3, F>(q)), R), 16 * u, 2 * nd, 6, "explicit mat3(q) is not the rotation matrix of q");
+  const L tq = 16 * u, tn = 2 * nd;
+  { Q g = glm::quat_cast(m3); o.res(FT<F>::bits(g.w), FT<F>::bits(g.x)); CHK(15, dqs(toL(g), qh), tq, tn, 7, "quat_cast(mat3_cast(q)) is neither q nor -q"); }
+  CHK(16, dqs(toL(glm::quat_cast(m4)), qh), tq, tn, 8, "quat_cast(mat4_cast(q)) is neither q nor -q");
+  CHK(17, dqs(toL(Q(m3)), qh), tq, tn, 9, "qua(mat3) is neither q nor -q");
+  CHK(18, dqs(toL(Q(m4)), qh), tq, tn, 10, "qua(mat4) is neither q nor -q");
+  CHK(19, dqs(toL(glm::toQuat(m3)), qh), tq, tn, 11, "gtx toQuat(mat3) is neither q nor -q");
+  CHK(20, dqs(toL(glm::toQuat(m4)), qh), tq, tn, 12, "gtx toQuat(mat4) is neither q nor -q");
 }
 
 // ================================================================ op 3: matrix of q1*q2 = product of the matrices
@@ -135,12 +141,12 @@ template <typename F> static void op_product(const Case& c, Outcome& o) {
   o.cls(qclass(qhat(hmul(ah, bh))));
   { LM viaq = rotm(qhat(hmul(ah, bh))); if (!(dmm(viaq, Rab) <= 1e-17L)) { o.bad(95, "ORACLE: R(q1 q2) != R(q1) R(q2) in the long double model"); return; } }
   Q p = q1 * q2; o.res(FT<F>::bits(p.w), FT<F>::bits(p.x));
-  CHK(25, dqq(toL(p), hmul(a, b)), 8 * u, 1, "q1*q2 is not the Hamilton product");   // four products of magnitude <= 1 each
-  { Q p2 = q1; p2 *= q2; if (!(p2.w == p.w && p2.x == p.x && p2.y == p.y && p2.z == p.z)) { o.bad(2, "q1 *= q2 differs from q1*q2"); return; } }
+  CHK(25, dqq(toL(p), hmul(a, b)), 12 * u, 0, 1, "q1*q2 is not the Hamilton product");   // four products of magnitude <= 1 and three additions per component
+  { Q p2 = q1; p2 *= q2; CHK(29, dqq(toL(p2), hmul(a, b)), 12 * u, 0, 2, "q1 *= q2 is not the Hamilton product"); }
   LM Mp = toL(glm::mat3_cast(p));
-  CHK(26, dmm(Mp, Rab), 24 * u + 2 * nd, 3, "mat3_cast(q1*q2) is not R(q1)R(q2)");
-  CHK(27, dmm(Mp, toL(glm::mat3_cast(q1) * glm::mat3_cast(q2))), 32 * u + 4 * nd, 4, "mat3_cast(q1*q2) != mat3_cast(q1)*mat3_cast(q2)");
-  CHK(28, dmm(toL3(glm::mat4_cast(p)), toL3(glm::mat4_cast(q1) * glm::mat4_cast(q2))), 32 * u + 4 * nd, 5, "mat4_cast(q1*q2) != mat4_cast(q1)*mat4_cast(q2)");
+  CHK(26, dmm(Mp, Rab), 40 * u, 2 * nd, 3, "mat3_cast(q1*q2) is not R(q1)R(q2)");
+  CHK(27, dmm(Mp, toL(glm::mat3_cast(q1) * glm::mat3_cast(q2))), 32 * u, 4 * nd, 4, "mat3_cast(q1*q2) != mat3_cast(q1)*mat3_cast(q2)");
+  CHK(28, dmm(toL3(glm::mat4_cast(p)), toL3(glm::mat4_cast(q1) * glm::mat4_cast(q2))), 32 * u, 4 * nd, 5, "mat4_cast(q1*q2) != mat4_cast(q1)*mat4_cast(q2)");
 }
 
 // ===================================================================== op 4: angleAxis(angle(q), axis(q)) ~ q
@@ -148,9 +154,9 @@ template <typename F> static void op_angleaxis_roundtrip(const Case& c, Outcome&
   typedef glm::qua<F> Q; typedef glm::vec<3, F> V3; const L u = FT<F>::u();
   Q q = getq<F>(c.w); LQ ql = toL(q); L nd = fabsl(qn2(ql) - 1); LQ qh = qhat(ql); o.cls(qclass(qh));
   F a = glm::angle(q); V3 n = glm::axis(q); Q g = glm::angleAxis(a, n); o.res(FT<F>::bits(g.w), FT<F>::bits(g.x));
-  // angle: 2 atan2(|v|, w) as a rotation angle, i.e. modulo 2 pi (condition number <= 2 everywhere)
-  { L ref = 2 * atan2l(sqrtl(qh.x * qh.x + qh.y * qh.y + qh.z * qh.z), qh.w), d = fabsl((L)a - ref); d = fminl(d, fabsl(d - 2 * PI_L));
-    CHK(30, d, 16 * u + 8 * nd, 1, "angle(q) is not the rotation angle of q"); }
+  // angle: 2 atan2(|v|, w) as a rotation angle, i.e. modulo 2 pi; 2 acos(w) / 2 asin(|v|) amplify the rounding of their argument by up to 2/sqrt(1-cos^2(1/2)) = 4.2
+  { L ref = 2 * atan2l(sqrtl(qh.x * qh.x + qh.y * qh.y + qh.z * qh.z), qh.w), d = fabsl((L)a - ref), d2 = fabsl((L)a - (2 * PI_L - ref)); d = fminl(fminl(d, fabsl(d - 2 * PI_L)), fminl(d2, fabsl(d2 - 2 * PI_L)));   // (a, n) and (2pi - a, -n) are the same rotation
+    CHK(30, d, 32 * u, 8 * nd, 1, "angle(q) is not the rotation angle of q"); }
   // the rebuilt quaternion describes the same rotation
   { L e = dqs(toL(g), qh), tol = 32 * u + 4 * nd;
     if (!(e <= tol)) {
@@ -160,12 +166,17 @@ template <typename F> static void op_angleaxis_roundtrip(const Case& c, Outcome&
       // with the axis replaced by xyz/|xyz| (what the statement means by "axis") the same angle rebuilds q
       L vl = sqrtl(ql.x * ql.x + ql.y * ql.y + ql.z * ql.z); LV nn = vl > 0 ? LV{ql.x / vl, ql.y / vl, ql.z / vl} : LV{0, 0, 1};
       bool repaired = dqs(axisangle_q((L)a, nn), qh) <= tol;
-      o.res(b64((double)e)); o.exp(b64((double)tol)); o.bad(2, "angleAxis(angle(q), axis(q)) is not the rotation of q");
+      MEASFAIL(31, "angleAxis(angle(q), axis(q)) is not the rotation of q", e, tol); o.res(b64((double)e)); o.exp(b64((double)tol)); o.bad(2, "angleAxis(angle(q), axis(q)) is not the rotation of q");
       if (legacy && repaired && fabsl(qh.w) > 0.5L) o.kf = KF_AXIS_CANCEL;
       return; }
-    MEAS(31, "angleAxis(angle(q), axis(q)) is not the rotation of q", e, tol); }
+    MEAS(31, "angleAxis(angle(q), axis(q)) is not the rotation of q", e, 32 * u, 4 * nd); }
   // exp(log(q)): the rotation-vector form of the same round trip
-  { Q e = glm::exp(glm::log(q)); CHK(32, dqs(toL(e), qh), 32 * u + 4 * nd, 3, "exp(log(q)) is not the rotation of q"); }
+  { Q lg = glm::log(q), e = glm::exp(lg); L ee = dqs(toL(e), qh);
+    if (!(ee <= 32 * u + 4 * nd)) { MEASFAIL(32, "exp(log(q)) is not the rotation of q", ee, 32 * u + 4 * nd); o.res(b64((double)ee)); o.exp(b64((double)(32 * u + 4 * nd))); o.bad(3, "exp(log(q)) is not the rotation of q");
+      // legacy model: exp(x) returns the value-initialised quaternion (0,0,0,0) instead of 1 when |x.xyz| < epsilon
+      if (glm::length(glm::vec<3, F>(lg.x, lg.y, lg.z)) < std::numeric_limits<F>::epsilon() && e.w == 0 && e.x == 0 && e.y == 0 && e.z == 0) o.kf = KF_EXP_ZERO;
+      return; }
+    MEAS(32, "exp(log(q)) is not the rotation of q", ee, 32 * u, 4 * nd); }
 }
 
 // ============================================================== op 5: axis-angle and single-axis Euler forms
@@ -179,32 +190,36 @@ template <typename F> static void op_axisangle(const Case& c, Outcome& o) {
   o.cls(fabsl(remainderl((L)a, 2 * PI_L)) < 1e-3L ? 0 : fabsl(fabsl(remainderl((L)a, 2 * PI_L)) - PI_L) < 1e-3L ? 1 : 2);
   if (!(dmm(rotm(qr), R) <= 1e-17L)) { o.bad(95, "ORACLE: Rodrigues matrix != Hamilton conjugation by (cos a/2, n sin a/2)"); return; }
   Q q = glm::angleAxis(a, n); o.res(FT<F>::bits(q.w), FT<F>::bits(q.x));
-  CHK(35, dqq(toL(q), qr), 4 * u + nd, 1, "angleAxis(a,n) is not (cos a/2, n sin a/2)");
-  CHK(36, dmm(toL(glm::mat3_cast(q)), R), 16 * u + 4 * nd, 2, "mat3_cast(angleAxis(a,n)) is not the Rodrigues rotation");
-  CHK(37, dvv(toL(V3(q * v)), rv), (32 * u + 4 * nd) * vn, 3, "angleAxis(a,n)*v is not the Rodrigues rotation of v");
+  CHK(35, dqs(toL(q), qr), 4 * u, nd, 1, "angleAxis(a,n) is not +-(cos a/2, n sin a/2)");
+  CHK(36, dmm(toL(glm::mat3_cast(q)), R), 16 * u, 4 * nd, 2, "mat3_cast(angleAxis(a,n)) is not the Rodrigues rotation");
+  CHK(37, dvv(toL(V3(q * v)), rv), 40 * u * vn, 4 * nd * vn, 3, "angleAxis(a,n)*v is not the Rodrigues rotation of v");
   // ext rotate(q0, a, n) = q0 * angleAxis(a, n)
   { LQ q0h = qhat(LQ{2, 3, 5, 7}); Q q0 = Q::wxyz((F)q0h.w, (F)q0h.x, (F)q0h.y, (F)q0h.z); Q g = glm::rotate(q0, a, n);
-    CHK(38, dqq(toL(g), hmul(toL(q0), qr)), 12 * u + 2 * nd, 4, "rotate(q0,a,n) is not q0*angleAxis(a,n)");
-    CHK(39, dqq(toL(glm::rotate(Q::wxyz(1, 0, 0, 0), a, n)), qr), 4 * u + nd, 5, "rotate(identity,a,n) is not (cos a/2, n sin a/2)"); }
+    CHK(38, dqs(toL(g), hmul(toL(q0), qr)), 12 * u, 2 * nd, 4, "rotate(q0,a,n) is not +-q0*(cos a/2, n sin a/2)");
+    CHK(39, dqs(toL(glm::rotate(Q::wxyz(1, 0, 0, 0), a, n)), qr), 4 * u, nd, 5, "rotate(identity,a,n) is not +-(cos a/2, n sin a/2)"); }
   // exp of the pure quaternion (0, n a/2) is the same unit quaternion
-  { F h = a * F(0.5); Q g = glm::exp(Q::wxyz(0, n.x * h, n.y * h, n.z * h)); CHK(40, dqq(toL(g), qr), 8 * u + nd, 6, "exp((0, n a/2)) is not (cos a/2, n sin a/2)"); }
+  { F h = a * F(0.5); Q x = Q::wxyz(0, n.x * h, n.y * h, n.z * h), g = glm::exp(x); L ee = dqs(toL(g), qr);
+    if (!(ee <= 16 * u + nd)) { MEASFAIL(40, "exp((0, n a/2))", ee, 16 * u + nd); o.res(b64((double)ee)); o.exp(b64((double)(16 * u + nd))); o.bad(6, "exp((0, n a/2)) is not +-(cos a/2, n sin a/2)");
+      if (glm::length(V3(x.x, x.y, x.z)) < std::numeric_limits<F>::epsilon() && g.w == 0 && g.x == 0 && g.y == 0 && g.z == 0) o.kf = KF_EXP_ZERO;
+      return; }
+    MEAS(40, "exp((0, n a/2)) is not +-(cos a/2, n sin a/2)", ee, 16 * u, nd); }
   // gtx rotate_vector: rotate(v, a, n) through the axis-angle matrix
-  CHK(41, dvv(toL(V3(glm::rotate(v, a, n))), rv), (32 * u + 4 * nd) * vn, 7, "gtx rotate(v,a,n) is not the Rodrigues rotation of v");
-  { glm::vec<4, F> g = glm::rotate(glm::vec<4, F>(v, F(1)), a, n); CHK(42, dvv(toL(V3(g)), rv), (32 * u + 4 * nd) * vn, 8, "gtx rotate(vec4,a,n) is not the Rodrigues rotation"); if (!(g.w == 1)) { o.bad(9, "gtx rotate(vec4,a,n) changed w"); return; } }
+  CHK(41, dvv(toL(V3(glm::rotate(v, a, n))), rv), 40 * u * vn, 4 * nd * vn, 7, "gtx rotate(v,a,n) is not the Rodrigues rotation of v");
+  { glm::vec<4, F> g = glm::rotate(glm::vec<4, F>(v, F(1)), a, n); CHK(42, dvv(toL(V3(g)), rv), 40 * u * vn, 4 * nd * vn, 8, "gtx rotate(vec4,a,n) is not the Rodrigues rotation"); if (!(g.w == 1)) { o.bad(9, "gtx rotate(vec4,a,n) changed w"); return; } }
   // single-axis forms: rotateX/Y/Z, eulerAngleX/Y/Z, orientate3(a), qua(vec3 euler) with one non-zero angle
   const LV E[3] = {{1, 0, 0}, {0, 1, 0}, {0, 0, 1}};
   for (int k = 0; k < 3; ++k) {
     LM Rk = rodrigues((L)a, E[k]); LV rk = mulmv(Rk, vl);
     V3 g = k == 0 ? glm::rotateX(v, a) : k == 1 ? glm::rotateY(v, a) : glm::rotateZ(v, a);
-    CHK(43 + k, dvv(toL(g), rk), 8 * u * vn, 10 + k, "rotateX/Y/Z(v,a) is not the rotation of v about that axis");
+    CHK(43 + k, dvv(toL(g), rk), 8 * u * vn, 0, 10 + k, "rotateX/Y/Z(v,a) is not the rotation of v about that axis");
     glm::vec<4, F> g4 = k == 0 ? glm::rotateX(glm::vec<4, F>(v, F(1)), a) : k == 1 ? glm::rotateY(glm::vec<4, F>(v, F(1)), a) : glm::rotateZ(glm::vec<4, F>(v, F(1)), a);
-    CHK(46 + k, dvv(toL(V3(g4)), rk), 8 * u * vn, 13 + k, "rotateX/Y/Z(vec4,a) is not the rotation about that axis"); if (!(g4.w == 1)) { o.bad(16, "rotateX/Y/Z(vec4) changed w"); return; }
+    CHK(46 + k, dvv(toL(V3(g4)), rk), 8 * u * vn, 0, 13 + k, "rotateX/Y/Z(vec4,a) is not the rotation about that axis"); if (!(g4.w == 1)) { o.bad(16, "rotateX/Y/Z(vec4) changed w"); return; }
     M4 m = k == 0 ? glm::eulerAngleX(a) : k == 1 ? glm::eulerAngleY(a) : glm::eulerAngleZ(a);
-    CHK(49 + k, dmm(toL3(m), Rk), 4 * u, 17 + k, "eulerAngleX/Y/Z(a) is not the rotation about that axis"); if (!pad_ok(m)) { o.bad(20, "eulerAngleX/Y/Z: last row/column is not that of the identity"); return; }
+    CHK(49 + k, dmm(toL3(m), Rk), 4 * u, 0, 17 + k, "eulerAngleX/Y/Z(a) is not the rotation about that axis"); if (!pad_ok(m)) { o.bad(20, "eulerAngleX/Y/Z: last row/column is not that of the identity"); return; }
     Q e = Q(V3(k == 0 ? a : F(0), k == 1 ? a : F(0), k == 2 ? a : F(0)));
-    CHK(52 + k, dqq(toL(e), axisangle_q((L)a, E[k])), 4 * u, 21 + k, "qua(vec3 euler) with a single angle is not the rotation about that axis");
+    CHK(52 + k, dqs(toL(e), axisangle_q((L)a, E[k])), 4 * u, 0, 21 + k, "qua(vec3 euler) with a single angle is not the rotation about that axis");
   }
-  CHK(55, dmm(toL(glm::orientate3(a)), rodrigues((L)a, E[2])), 4 * u, 24, "orientate3(a) is not the rotation about Z");
+  CHK(55, dmm(toL(glm::orientate3(a)), rodrigues((L)a, E[2])), 4 * u, 0, 24, "orientate3(a) is not the rotation about Z");
 }
 
 // ======================================================================== op 6: quat(eulerAngles(q)) ~ q
@@ -214,25 +229,27 @@ template <typename F> static void op_euler_roundtrip(const Case& c, Outcome& o) 
   Q q = getq<F>(c.w); LQ ql = toL(q); L nd = fabsl(qn2(ql) - 1); LQ qh = qhat(ql);
   L sy = 2 * (qh.w * qh.y - qh.x * qh.z); bool gimbal = fabsl(sy) > 0.999L; o.cls(gimbal ? 1 : 0);
   V3 e = glm::eulerAngles(q); Q g = Q(e); o.res(FT<F>::bits(g.w), FT<F>::bits(g.x));
-  if (!(e.x == glm::pitch(q) && e.y == glm::yaw(q) && e.z == glm::roll(q))) { o.bad(1, "eulerAngles(q) is not (pitch, yaw, roll)"); return; }
-  // Away from the pole every angle is an atan2/asin of O(1)-conditioned arguments.  Towards the pole yaw = asin(s) has
-  // condition number 1/sqrt(1-s^2): allow that amplification of the rounding of s (capped where 1-s^2 reaches u).
+  // yaw = asin(s), s = 2(wy-xz), has slope 1/cos(yaw); roll and pitch are atan2 of two quantities of size cos(yaw) that carry
+  // ~2u of absolute rounding each: about 12u/cos(yaw) in total (measured 12.5), allowed with factor 4.  The amplification is
+  // capped at cos(yaw)^2 = u: closer to the pole only roll -+ pitch matters and a rotation is reproduced to sqrt(u) by
+  // treating it as lying on the pole, so nothing justifies a larger error there.
   L c2 = 1 - sy * sy; if (c2 < u) c2 = u;
-  L tol = 32 * u + 4 * nd + (gimbal ? 8 * u / sqrtl(c2) : 0);
+  L tol = 32 * u + 4 * nd + 48 * u / sqrtl(c2);
   L err = dqs(toL(g), qh);
   if (!(err <= tol)) {
-    o.res(b64((double)err)); o.exp(b64((double)tol)); o.bad(gimbal ? 3 : 2, gimbal ? "quat(eulerAngles(q)) is a different rotation (q at gimbal lock)" : "quat(eulerAngles(q)) is a different rotation");
-    // legacy model: roll() and pitch() test their atan2(0,0) guard independently against epsilon<T>(); the defect shows
-    // when exactly one of them took its guard branch
-    if (gimbal) {
+    MEASFAIL(gimbal ? 61 : 60, "quat(eulerAngles(q))", err, tol); o.res(b64((double)err)); o.exp(b64((double)tol)); o.bad(gimbal ? 3 : 2, gimbal ? "quat(eulerAngles(q)) is a different rotation (q at gimbal lock)" : "quat(eulerAngles(q)) is a different rotation");
+    // legacy model: roll and pitch are atan2 of two quantities that both vanish like cos(yaw) and carry O(u) rounding noise, with
+    // an atan2(0,0) guard that each of them applies on its own (both <= epsilon); the triple returned is exactly that formula
+    if (gimbal && fabsl(sy) > 1 - 1e-6L) {
       F ry = F(2) * (q.x * q.y + q.w * q.z), rx = q.w * q.w + q.x * q.x - q.y * q.y - q.z * q.z;
       F py = F(2) * (q.y * q.z + q.w * q.x), px = q.w * q.w - q.x * q.x - q.y * q.y + q.z * q.z; const F eps = std::numeric_limits<F>::epsilon();
       bool rg = std::fabs(rx) <= eps && std::fabs(ry) <= eps, pg = std::fabs(px) <= eps && std::fabs(py) <= eps;
       F lroll = rg ? F(0) : std::atan2(ry, rx), lpitch = pg ? F(2) * std::atan2(q.x, q.w) : std::atan2(py, px);
-      if (rg != pg && lroll == e.z && lpitch == e.x) o.kf = KF_EULER_GIMBAL;
+      F lyaw = std::asin(glm::clamp(F(-2) * (q.x * q.z - q.w * q.y), F(-1), F(1)));
+      if (lroll == e.z && lpitch == e.x && lyaw == e.y) o.kf = KF_EULER_GIMBAL;
     }
     return; }
-  MEAS(gimbal ? 61 : 60, gimbal ? "quat(eulerAngles(q)) near gimbal lock" : "quat(eulerAngles(q)) regular", err, tol);
+  MEAS(gimbal ? 61 : 60, gimbal ? "quat(eulerAngles(q)) near gimbal lock" : "quat(eulerAngles(q)) regular", err, tol - 4 * nd, 4 * nd);
 }
 
 // ===================================================================== op 7: quaternion built from two vectors
@@ -249,24 +266,24 @@ template <typename F> static void op_twovec(const Case& c, Outcome& o) {
   o.cls(opposite ? 2 : parallel ? 1 : ch < 1e-2L ? 3 : 0);
   L amp = opposite ? 1 : 1 / ch; L tol = 16 * u * amp; if (tol > 2.5L) tol = 2.5L;
   { Q q = Q(a, b); LQ g = toL(q); o.res(FT<F>::bits(q.w), FT<F>::bits(q.x));
-    CHK(65, fabsl(qn2(g) - 1), 8 * u, 1, "qua(u,v) is not a unit quaternion");
+    CHK(65, fabsl(qn2(g) - 1), 20 * u, 0, 1, "qua(u,v) is not a unit quaternion");
     LV r = rotv(qhat(g), ah); L e = dvv(r, bh);
     if (!(e <= tol)) {
-      o.res(b64((double)e)); o.exp(b64((double)tol)); o.bad(2, "qua(u,v) does not rotate u onto the direction of v");
+      MEASFAIL(66, "qua(u,v) does not rotate u onto the direction of v", e, tol); o.res(b64((double)e)); o.exp(b64((double)tol)); o.bad(2, "qua(u,v) does not rotate u onto the direction of v");
       // legacy model: pairs with 0 < 1+cos < 1e-6 are treated as exactly opposite (rotation by pi about an axis orthogonal to u)
       if (!opposite && !parallel) { V3 t = std::fabs(a.x) > std::fabs(a.z) ? V3(-a.y, a.x, F(0)) : V3(F(0), -a.z, a.y); Q lq = glm::normalize(Q::wxyz(F(0), t.x, t.y, t.z));
         F nunv = std::sqrt(glm::dot(a, a) * glm::dot(b, b)), rp = nunv + glm::dot(a, b);
         if (rp < F(1.e-6f) * nunv && lq.w == q.w && lq.x == q.x && lq.y == q.y && lq.z == q.z) o.kf = KF_TWOVEC_NEAR_OPPOSITE; }
       return; }
-    MEAS(66, "qua(u,v) does not rotate u onto the direction of v", e, tol); }
+    MEAS(66, "qua(u,v) does not rotate u onto the direction of v", e, tol, 0); }
   // gtx rotation(orig, dest): documented for normalised arguments
   { V3 an((F)ah.x, (F)ah.y, (F)ah.z), bn((F)bh.x, (F)bh.y, (F)bh.z); if (opposite) bn = V3(-an.x, -an.y, -an.z); if (parallel) bn = an;
     LV anl = toL(an), bnl = toL(bn); L nd = fabsl(vdot(anl, anl) - 1) + fabsl(vdot(bnl, bnl) - 1);
     Q q = glm::rotation(an, bn); LQ g = toL(q);
     // (s/2, (u x v)/s) with s^2 = 2(1+cos): the rounding of 1+cos enters |q|^2 relative to 1+cos = 2cos^2(theta/2)
-    CHK(67, fabsl(qn2(g) - 1), fminl((8 * u + 2 * nd) * amp * amp, 1e3L) + 8 * u, 3, "gtx rotation(u,v) is not a unit quaternion");
+    CHK(67, fabsl(qn2(g) - 1), fminl(8 * u * amp * amp, 1e3L) + 8 * u, fminl(2 * nd * amp * amp, 1e3L), 3, "gtx rotation(u,v) is not a unit quaternion");
     LV r = rotv(qhat(g), vhat(anl)); L t2 = (16 * u + 2 * nd) * amp; if (t2 > 2.5L) t2 = 2.5L;
-    CHK(68, dvv(r, vhat(bnl)), t2, 4, "gtx rotation(u,v) does not rotate u onto v"); }
+    CHK(68, dvv(r, vhat(bnl)), t2, 0, 4, "gtx rotation(u,v) does not rotate u onto v"); }
 }
 
 // ============================================================= op 8: inverse / conjugate of a unit quaternion
@@ -275,12 +292,12 @@ template <typename F> static void op_inverse(const Case& c, Outcome& o) {
   Q q = getq<F>(c.w); LQ ql = toL(q); L nd = fabsl(qn2(ql) - 1); o.cls(qclass(qhat(ql)));
   Q cj = glm::conjugate(q), iv = glm::inverse(q); o.res(FT<F>::bits(iv.w), FT<F>::bits(iv.x));
   if (!(cj.w == q.w && cj.x == -q.x && cj.y == -q.y && cj.z == -q.z)) { o.bad(1, "conjugate(q) is not (w,-x,-y,-z)"); return; }
-  CHK(70, dqq(toL(iv), toL(cj)), 4 * u + 2 * nd, 2, "inverse(q) != conjugate(q) for unit q");
-  CHK(71, dqq(toL(q * iv), LQ{1, 0, 0, 0}), 8 * u + 2 * nd, 3, "q*inverse(q) is not the identity");
-  CHK(72, dqq(toL(iv * q), LQ{1, 0, 0, 0}), 8 * u + 2 * nd, 4, "inverse(q)*q is not the identity");
-  CHK(73, dqq(toL(q * cj), LQ{1, 0, 0, 0}), 8 * u + 2 * nd, 5, "q*conjugate(q) is not the identity for unit q");
-  CHK(74, fabsl((L)glm::length(q) - sqrtl(qn2(ql))), 4 * u, 6, "length(q)");
-  CHK(75, dqq(toL(glm::normalize(q)), qhat(ql)), 4 * u, 7, "normalize(q)");
+  CHK(70, dqq(toL(iv), toL(cj)), 4 * u, 2 * nd, 2, "inverse(q) != conjugate(q) for unit q");
+  CHK(71, dqq(toL(q * iv), LQ{1, 0, 0, 0}), 8 * u, 2 * nd, 3, "q*inverse(q) is not the identity");
+  CHK(72, dqq(toL(iv * q), LQ{1, 0, 0, 0}), 8 * u, 2 * nd, 4, "inverse(q)*q is not the identity");
+  CHK(73, dqq(toL(q * cj), LQ{1, 0, 0, 0}), 8 * u, 2 * nd, 5, "q*conjugate(q) is not the identity for unit q");
+  CHK(74, fabsl((L)glm::length(q) - sqrtl(qn2(ql))), 8 * u, 0, 6, "length(q)");
+  CHK(75, dqq(toL(glm::normalize(q)), qhat(ql)), 12 * u, 0, 7, "normalize(q)");
 }
 
 // ============================================================ op 9/10: gtx Euler matrices and their extraction
@@ -311,14 +328,14 @@ template <typename F> static void op_euler3(const Case& c, Outcome& o) {
   LM ref = mulmm(mulmm(toL3(single_axis<F>(ax[0], a)), toL3(single_axis<F>(ax[1], b))), toL3(single_axis<F>(ax[2], cc)));
   // each entry is a sum of at most two products of three sines/cosines (each within an ulp); the factors carry u/2 each
   L e = dmm(toL3(m), ref); if (!(e <= 16 * u)) { std::snprintf(msg, sizeof msg, "%s(a,b,c) is not the product of its single-axis factors", ORDER3NAME[ord]); o.res(b64((double)e)); o.exp(b64((double)(16 * u))); o.bad(1 + ord, msg); return; }
-  MEAS(56, "eulerAngleABC(a,b,c) vs product of single-axis factors", e, 16 * u);
+  MEAS(56, "eulerAngleABC(a,b,c) vs product of single-axis factors", e, 16 * u, 0);
   if (!pad_ok(m)) { std::snprintf(msg, sizeof msg, "%s: last row/column is not that of the identity", ORDER3NAME[ord]); o.bad(20 + ord, msg); return; }
   if (ord >= 12) return;
   F t1, t2, t3; extract3<F>(ord, m, t1, t2, t3); M4 m2 = build3<F>(ord, t1, t2, t3);
   // extraction: three atan2 of entries carrying ~4u absolute error; the third angle is computed from the first, so the
   // rebuilt matrix stays within a small multiple of u even where the first angle is ill-determined
   L e2 = dmm(toL3(m2), toL3(m)); if (!(e2 <= 64 * u)) { std::snprintf(msg, sizeof msg, "eulerAngle%s(extractEulerAngle%s(M)) does not rebuild M", ORDER3NAME[ord], ORDER3NAME[ord]); o.res(b64((double)e2)); o.exp(b64((double)(64 * u))); o.bad(40 + ord, msg); return; }
-  MEAS(57, "eulerAngleABC(extractEulerAngleABC(M)) vs M", e2, 64 * u);
+  MEAS(57, "eulerAngleABC(extractEulerAngleABC(M)) vs M", e2, 64 * u, 0);
 }
 static const int ORDER2[6][2] = {{0,1},{1,0},{0,2},{2,0},{1,2},{2,1}};
 static const char* ORDER2NAME[6] = {"XY","YX","XZ","ZX","YZ","ZY"};
@@ -329,7 +346,7 @@ template <typename F> static void op_euler2(const Case& c, Outcome& o) {
   o.res(FT<F>::bits(m[0][0]), FT<F>::bits(m[1][2]));
   LM ref = mulmm(toL3(single_axis<F>(ORDER2[ord][0], a)), toL3(single_axis<F>(ORDER2[ord][1], b)));
   L e = dmm(toL3(m), ref); if (!(e <= 8 * u)) { std::snprintf(msg, sizeof msg, "eulerAngle%s(a,b) is not the product of its single-axis factors", ORDER2NAME[ord]); o.res(b64((double)e)); o.exp(b64((double)(8 * u))); o.bad(1 + ord, msg); return; }
-  MEAS(58, "eulerAngleAB(a,b) vs product of single-axis factors", e, 8 * u);
+  MEAS(58, "eulerAngleAB(a,b) vs product of single-axis factors", e, 8 * u, 0);
   if (!pad_ok(m)) { std::snprintf(msg, sizeof msg, "eulerAngle%s: last row/column is not that of the identity", ORDER2NAME[ord]); o.bad(10 + ord, msg); return; }
 }
 
@@ -342,21 +359,21 @@ template <typename F> static void op_dualquat(const Case& c, Outcome& o) {
   DQ d(q, p); o.res(FT<F>::bits(d.dual.w), FT<F>::bits(d.dual.x));
   if (!(d.real.w == q.w && d.real.x == q.x && d.real.y == q.y && d.real.z == q.z)) { o.bad(1, "tdualquat(q,p).real != q"); return; }
   // dual part = (0,p) q / 2
-  CHK(76, dqq(toL(d.dual), qscale(hmul(LQ{0, pl.x, pl.y, pl.z}, ql), 0.5L)), 4 * u * pn, 2, "tdualquat(q,p).dual is not (0,p) q / 2");
+  CHK(76, dqq(toL(d.dual), qscale(hmul(LQ{0, pl.x, pl.y, pl.z}, ql), 0.5L)), 4 * u * pn, 0, 2, "tdualquat(q,p).dual is not (0,p) q / 2");
   LV rv = mulmv(R, vl); LV want = { rv.x + pl.x, rv.y + pl.y, rv.z + pl.z };
-  CHK(77, dvv(toL(V3(d * v)), want), (32 * u + 4 * nd) * (vn + pn), 3, "dualquat(q,p)*v is not R(q)v + p");
+  CHK(77, dvv(toL(V3(d * v)), want), 40 * u * (vn + pn), 4 * nd * (vn + pn), 3, "dualquat(q,p)*v is not R(q)v + p");
   { glm::mat<3, 4, F> m = glm::mat3x4_cast(d); L e = 0;
     for (int r = 0; r < 3; ++r) { for (int k = 0; k < 3; ++k) { L dd = fabsl((L)m[r][k] - R.m[k][r]); if (!(dd <= e)) e = dd; } }
-    CHK(78, e, 16 * u + 2 * nd, 4, "mat3x4_cast(dualquat): rotation block is not R(q)");
+    CHK(78, e, 16 * u, 2 * nd, 4, "mat3x4_cast(dualquat): rotation block is not R(q)");
     L et = fmaxl(fmaxl(fabsl((L)m[0][3] - pl.x), fabsl((L)m[1][3] - pl.y)), fabsl((L)m[2][3] - pl.z)); if (et != et) et = 1e300L;
-    CHK(79, et, (16 * u + 4 * nd) * pn, 5, "mat3x4_cast(dualquat): translation column is not p");
+    CHK(79, et, 16 * u * pn, 4 * nd * pn, 5, "mat3x4_cast(dualquat): translation column is not p");
     DQ back = glm::dualquat_cast(m); L sgn = (toL(back.real).w * qh.w + toL(back.real).x * qh.x + toL(back.real).y * qh.y + toL(back.real).z * qh.z) < 0 ? -1 : 1;
-    CHK(62, dqq(qscale(toL(back.real), sgn), qh), 16 * u + 2 * nd, 6, "dualquat_cast(mat3x4_cast(d)).real is neither q nor -q");
-    CHK(63, dqq(qscale(toL(back.dual), sgn), qscale(hmul(LQ{0, pl.x, pl.y, pl.z}, qh), 0.5L)), (32 * u + 4 * nd) * pn, 7, "dualquat_cast(mat3x4_cast(d)).dual is not the dual part of d (same sign as real)"); }
+    CHK(62, dqq(qscale(toL(back.real), sgn), qh), 16 * u, 2 * nd, 6, "dualquat_cast(mat3x4_cast(d)).real is neither q nor -q");
+    CHK(63, dqq(qscale(toL(back.dual), sgn), qscale(hmul(LQ{0, pl.x, pl.y, pl.z}, qh), 0.5L)), 32 * u * pn, 4 * nd * pn, 7, "dualquat_cast(mat3x4_cast(d)).dual is not the dual part of d (same sign as real)"); }
   { glm::mat<2, 4, F> m = glm::mat2x4_cast(d); DQ b2 = glm::dualquat_cast(m);
     if (!(m[0].x == q.x && m[0].y == q.y && m[0].z == q.z && m[0].w == q.w && m[1].x == d.dual.x && m[1].w == d.dual.w)) { o.bad(8, "mat2x4_cast(d) is not (real.xyzw, dual.xyzw)"); return; }
     if (!(b2.real == d.real && b2.dual == d.dual)) { o.bad(9, "dualquat_cast(mat2x4_cast(d)) != d"); return; } }
-  CHK(64, dvv(toL(V3(glm::inverse(d) * V3(d * v))), vl), (64 * u + 8 * nd) * (vn + 2 * pn), 10, "inverse(d)*(d*v) is not v");
+  CHK(64, dvv(toL(V3(glm::inverse(d) * V3(d * v))), vl), 64 * u * (vn + 2 * pn), 8 * nd * (vn + 2 * pn), 10, "inverse(d)*(d*v) is not v");
 }
 
 // ===================================================== op 12: memory order, constructors and named members agree
@@ -386,7 +403,7 @@ template <typename F> static void op_layout(const Case& c, Outcome& o) {
       if (FT<F>::bits(q[i]) != FT<F>::bits(want[i])) { o.res(FT<F>::bits(q[i]), (uint64_t)i); o.exp(FT<F>::bits(want[i])); o.bad(10, "qua::operator[] does not follow the configured memory order"); return; } }
     Q r = glm::make_quat(p); if (!same(r)) { o.bad(11, "make_quat(value_ptr(q)) != q"); return; }
     Q t = Q::wxyz(0, 0, 0, 0); for (int i = 0; i < 4; ++i) t[i] = want[i]; if (!same(t)) { o.bad(12, "writing through operator[] does not follow the configured memory order"); return; } }
-  { Q n = -q; if (!(FT<F>::bits(n.w) == FT<F>::bits(-w) && FT<F>::bits(n.x) == FT<F>::bits(-x) && FT<F>::bits(n.y) == FT<F>::bits(-y) && FT<F>::bits(n.z) == FT<F>::bits(-z))) { o.bad(13, "-q is not the member-wise negation"); return; }
+  { Q n = -q; if (!(n.w == -w && n.x == -x && n.y == -y && n.z == -z)) { o.bad(13, "-q is not the member-wise negation"); return; }
     Q s = q + q, d2 = q * F(2), e = F(2) * q, h = q / F(0.5); if (!(s.w == w + w && s.x == x + x && s.y == y + y && s.z == z + z) || !(d2.w == s.w && d2.x == s.x && d2.y == s.y && d2.z == s.z) || !(e.w == s.w && e.z == s.z) || !(h.x == s.x && h.y == s.y)) { o.bad(14, "q+q, q*2, 2*q, q/0.5 are not member-wise"); return; }
     Q m = q - q; if (!(m.w == 0 && m.x == 0 && m.y == 0 && m.z == 0)) { o.bad(15, "q-q is not zero"); return; }
     if (!(q == q) || (q != q) || (q == n && (w != 0 || x != 0 || y != 0 || z != 0))) { o.bad(16, "operator==/!= on quaternions"); return; } }
@@ -431,11 +448,13 @@ static std::vector<LQ> rot_base(std::vector<size_t>* small_idx) {
       b.push_back(hmul(qz, hmul(qy, qx))); } }
   return b; }
 // ROT in F: every base point rounded to F, plus copies with one component moved by the given numbers of ulps
-template <typename F> static Domain make_rot(const std::string& name, const std::vector<LQ>& base, const std::vector<size_t>* pick, const std::vector<int>& nudges) {
+// (points exactly at Euler gimbal lock, |2(wy-xz)| = 1, additionally get the `pole_nudges`)
+template <typename F> static Domain make_rot(const std::string& name, const std::vector<LQ>& base, const std::vector<size_t>* pick, const std::vector<int>& nudges, const std::vector<int>& pole_nudges = {}) {
   std::vector<uint64_t> flat; std::set<std::array<uint64_t, 4>> seen;
   auto put = [&](F w, F x, F y, F z) { std::array<uint64_t, 4> r = {FT<F>::bits(w), FT<F>::bits(x), FT<F>::bits(y), FT<F>::bits(z)}; if (seen.insert(r).second) flat.insert(flat.end(), r.begin(), r.end()); };
   auto one = [&](const LQ& q) { F c[4] = {(F)q.w, (F)q.x, (F)q.y, (F)q.z}; put(c[0], c[1], c[2], c[3]);
-    for (int i = 0; i < 4; ++i) for (int k : nudges) { F d[4] = {c[0], c[1], c[2], c[3]}; d[i] = nudge(d[i], k); put(d[0], d[1], d[2], d[3]); } };
+    for (int i = 0; i < 4; ++i) for (int k : nudges) { F d[4] = {c[0], c[1], c[2], c[3]}; d[i] = nudge(d[i], k); put(d[0], d[1], d[2], d[3]); }
+    if (!pole_nudges.empty() && fabsl(fabsl(2 * (q.w * q.y - q.x * q.z)) - 1) < 1e-15L) for (int i = 0; i < 4; ++i) for (int k : pole_nudges) { F d[4] = {c[0], c[1], c[2], c[3]}; d[i] = nudge(d[i], k); put(d[0], d[1], d[2], d[3]); } };
   if (pick) for (size_t i : *pick) one(base[i]); else for (const LQ& q : base) one(q);
   return rows(name, 4, flat); }
 template <typename F> static Domain make_vec3l(bool with_scaled) {
@@ -475,7 +494,7 @@ template <typename F> static uint64_t named_member_digest(const Domain& rot) {
 
 template <typename F> static void reg(Engine& E, const std::vector<LQ>& base, const std::vector<size_t>& small_idx) {
   const std::string t = FT<F>::name(); const std::string T = "<" + t + ">";
-  Domain rotq = make_rot<F>("ROT_quick(" + t + "): integer quaternions {-2..2}^4, 120 icosians, 26 lattice axes x ANGLES, 10^-j neighbourhoods of the 8 axis points, gimbal-lock set; each +-1 ulp per component", base, nullptr, {-1, 1});
+  Domain rotq = make_rot<F>("ROT_quick(" + t + "): integer quaternions {-2..2}^4, 120 icosians, 26 lattice axes x ANGLES, 10^-j neighbourhoods of the 8 axis points, gimbal-lock set; each +-1 ulp per component (+-2, +-3 ulp too at exact gimbal lock)", base, nullptr, {-1, 1}, {-3, -2, 2, 3});
   Domain rott = make_rot<F>("ROT(" + t + "): as ROT_quick with +-1, +-2, +-3 ulp per component", base, nullptr, {-3, -2, -1, 1, 2, 3});
   Domain rots = make_rot<F>("ROT_small(" + t + "): {-1,0,1}^4, icosians, every 11th axis-angle point, samples of the near-axis and gimbal sets", base, &small_idx, {});
   std::vector<size_t> half; for (size_t i = 0; i < base.size(); i += 3) half.push_back(i);
@@ -502,7 +521,7 @@ template <typename F> static void reg(Engine& E, const std::vector<LQ>& base, co
 }
 
 int main(int argc, char** argv) {
-  Engine E; E.property = "C04"; E.kf_ids = {"KF-C04-euler-gimbal", "KF-C04-axis-cancellation", "KF-C04-twovec-near-opposite"};
+  Engine E; E.property = "C04"; E.kf_ids = {"KF-C04-euler-gimbal", "KF-C04-axis-cancellation", "KF-C04-twovec-near-opposite", "KF-C04-exp-zero"};
 #ifdef GLM_FORCE_QUAT_DATA_WXYZ
   E.extra_json["quat_memory_order"] = "\"wxyz\"";
 #else
